@@ -1,16 +1,40 @@
-(* C02, weather station part — PARTIAL: `_read` is total (it answers the sensor row or the error
-   string, never raises) — proved; that the framed query `r <id>` LF reaches `_read` from every
-   idle thread is covered by the correspondence (all 21 sensors after random histories) and the
-   implementation-level oracle only.  Statements only. *)
-From DS Require Import Base.Prelude Model.SmbCommon Model.SmbWeather Proofs.SmbCommon Proofs.SmbWeather.
+(* C02, weather station part — the query `r <id>` LF is answered with exactly one reply from every
+   idle thread, whatever the other threads hold and whatever the sensors contain; for every
+   non-empty id without whitespace (the 21 catalogue ids and any other).  Statements only. *)
+From DS Require Import Base.Prelude Model.SmbCommon Model.SmbWeather Proofs.SmbCommon Proofs.SmbWeather
+  Proofs.SmbWeatherInv.
 
-Theorem C02_weather_read_total_partial : forall l id,
+Theorem C02_weather_answered : forall fmt d t id, ws_idle d t = true -> ws_token id ->
+  exists d', ws_run fmt d (on_thread t (ws_query id)) =
+               (d', repeat OTrue (2 + length id) ++ [OReply (ws_read (sensors d) id)]) /\
+             (buf_get t (bufs d') = None /\ sensors d' = sensors d /\
+              forall t', t' <> t -> buf_get t' (bufs d') = buf_get t' (bufs d)).
+Proof. exact ws_query_answered. Qed.
+Print Assumptions C02_weather_answered.
+
+(* the answer is the sensor row, or the protocol's error string for an unknown sensor *)
+Theorem C02_weather_answer : forall l id,
   (sen_find id l = None /\ ws_read l id = WS_ERR) \/
   (exists s, sen_find id l = Some s /\
      ws_read l id = WS_OPEN ++ id ++ WS_VAL ++ sval s ++ WS_DATE ++ sdate s ++ WS_INFO ++ sinfo s ++ WS_CLOSE).
 Proof. exact ws_read_cases. Qed.
-Print Assumptions C02_weather_read_total_partial.
+Print Assumptions C02_weather_answer.
 
+(* idle is what C03 guarantees: after ANY history, the terminator on thread t, then the query *)
+Theorem C02_weather_after_any_history : forall fmt cfg ops t id, (forall x, fmt x <> None) -> ws_token id ->
+  let d := fst (ws_step fmt (fst (ws_run fmt (ws_init cfg) ops)) t LF) in
+  exists d', ws_run fmt d (on_thread t (ws_query id)) =
+               (d', repeat OTrue (2 + length id) ++ [OReply (ws_read (sensors d) id)]) /\
+             (buf_get t (bufs d') = None /\ sensors d' = sensors d /\
+              forall t', t' <> t -> buf_get t' (bufs d') = buf_get t' (bufs d)).
+Proof.
+  exact (fun fmt cfg ops t id Hf Hid =>
+           ws_query_answered fmt _ t id (ws_resync_reachable fmt cfg ops t Hf) Hid).
+Qed.
+Print Assumptions C02_weather_after_any_history.
+
+Example C02_weather_ex_token : ws_token [116; 104; 48; 49].
+Proof. split; [discriminate|]. intros x [<-|[<-|[<-|[<-|[]]]]]; reflexivity. Qed.
 Example C02_weather_ex :
   let cfg := [mkSen [116; 104] [49] [35] [105]] in
   snd (ws_run (fun _ => None) (ws_init cfg) (on_thread 7 (ws_query [116; 104]))) =
